@@ -81,6 +81,19 @@ func harnessOverlay() (map[string][]byte, []string, error) {
 		return nil
 	})
 	sort.Strings(names)
+	if err == nil {
+		gen, gerr := generateCopyHarnesses()
+		if gerr != nil {
+			return nil, nil, gerr
+		}
+		dst := filepath.Join(repoDir, "schema", "zz_verif_gen_copy.go")
+		ov[dst] = gen
+		names = append(names, dst)
+		sup := filepath.Join(repoDir, "schema", "zz_verif_support.go")
+		if _, ok := ov[sup]; !ok {
+			ov[sup] = []byte(strings.Replace(string(support), "package PKG", "package schema", 1))
+		}
+	}
 	return ov, names, err
 }
 
